@@ -815,7 +815,8 @@ impl<'a> State<'a> {
                     return;
                 }
                 let i = candidates[pick(*rec, candidates.len())];
-                let fmt = *fmt % 3;
+                // JSON cannot carry non-finite floats: such records go through the binary format
+                let fmt = if self.singles[i].0.json_safe() { *fmt % 3 } else { 2 };
                 let v = self.singles[i].1.variant;
                 let bytes = match catch_unwind(AssertUnwindSafe(|| self.singles[i].0.ser(fmt))) {
                     Ok(Some(Ok(b))) => b,
@@ -879,7 +880,7 @@ impl<'a> State<'a> {
                     return;
                 }
                 let i = candidates[pick(*rec, candidates.len())];
-                let fmt = *fmt % 3;
+                let fmt = if self.singles[i].0.json_safe() { *fmt % 3 } else { 2 };
                 let v = self.singles[i].1.variant;
                 let fields = self.fields(v);
                 let bytes = match catch_unwind(AssertUnwindSafe(|| self.singles[i].0.ser(fmt))) {
